@@ -49,9 +49,12 @@ so an empty `[]any` inside a container comes from the bindings and is non-nil: `
 
 ## `%T` (`typeName`)
 
-The Go type name of the dynamic type. The harness's own struct and drop types
-(`struct { F0 interface {} "liquid:\"a\"" }`, `main.dropV`) and the pointee type of a nil pointer are
-not part of the value model: `unmodelled`.
+The Go type name of the dynamic type. For `.struct` and `.drop` these are the names of the Go types
+the harness realises them as (`harness/codec.go`): the `reflect.StructOf` type
+`struct { F0 interface {} "liquid:\"a\""; F1 … }` (the tag quoted by `strconv.Quote`; modelled for ASCII
+field names) and `main.dropV` — like the field names `F0, F1` in the JSON text they describe the test
+universe, not a property of user types. The pointee type of a nil pointer is not part of the value:
+`unmodelled`.
 -/
 
 namespace JsonF
@@ -325,6 +328,41 @@ def optName (what : String) : Option Bytes → R Bytes
   | some b => .ok b
   | none => .unmodelled what
 
+/-- `strconv.Quote` of the struct tag `liquid:"<name>"` for an ASCII name (`none`: a byte ≥ 0x80, whose
+    quoting depends on `unicode.IsPrint`) -/
+def quoteTagBody : Bytes → Option Bytes
+  | [] => some []
+  | b :: r =>
+    if b ≥ 0x80 then none else
+    (quoteTagBody r).map fun q =>
+      (if b == 34 || b == 92 then [92, b]
+       else if b == 7 then [92, 97] else if b == 8 then [92, 98] else if b == 12 then [92, 102]
+       else if b == 10 then [92, 110] else if b == 13 then [92, 114] else if b == 9 then [92, 116]
+       else if b == 11 then [92, 118]
+       else if b < 32 || b == 127 then [92, 120, hexLow (b.toNat / 16), hexLow (b.toNat % 16)]
+       else [b]) ++ q
+
+/-- the fields of the `reflect.StructOf` types the harness realises `.struct` as:
+    `F<i> interface {} "liquid:\"<name>\""`, joined with `; ` -/
+def structFieldNames : Nat → List (Bytes × GoVal) → Option (List Bytes)
+  | _, [] => some []
+  | i, (name, _) :: r =>
+    match quoteTagBody name, structFieldNames (i + 1) r with
+    | some q, some rest =>
+      some ((70 :: natDec i ++ bn " interface {} \"liquid:\\\"" ++ q ++ bn "\\\"\"") :: rest)
+    | _, _ => none
+
+def joinSemi : List Bytes → Bytes
+  | [] => []
+  | [a] => a
+  | a :: rest => a ++ 59 :: 32 :: joinSemi rest
+
+/-- `%T` of the struct type the harness builds for `.struct fs` -/
+def structTypeName (fs : List (Bytes × GoVal)) : Option Bytes :=
+  match fs with
+  | [] => some (bn "struct {}")
+  | _ => (structFieldNames 0 fs).map fun ns => bn "struct { " ++ joinSemi ns ++ bn " }"
+
 /-- `fmt.Sprintf("%T", v)` -/
 def typeName : GoVal → R Bytes
   | .nil => .ok (bn "<nil>")
@@ -340,14 +378,12 @@ def typeName : GoVal → R Bytes
   | .mapSlice _ => .ok (bn "yaml.MapSlice")
   | .keyedMap _ => .ok (bn "tags.IterationKeyedMap")
   | .range _ _ => .ok (bn "values.Range")
-  | .ptr (.struct _) => .unmodelled "%T: the Go name of a struct type is not part of the value"
-  | .ptr (.drop _) => .unmodelled "%T: the Go name of a drop type is not part of the value"
   | .ptr .nilPtr => .unmodelled "%T: the pointee type of a nil pointer is not part of the value"
   | .ptr .nil => .ok (bn "*interface {}")
   | .ptr v => (typeName v).bind fun n => .ok (42 :: n)
   | .nilPtr => .unmodelled "%T: the pointee type of a nil pointer is not part of the value"
-  | .drop _ => .unmodelled "%T: the Go name of a drop type is not part of the value"
-  | .struct _ => .unmodelled "%T: the Go name of a struct type is not part of the value"
+  | .drop _ => .ok (bn "main.dropV")          -- the harness's drop type (a drop yielding a drop, after `ToLiquid`)
+  | .struct fs => optName "%T: struct tag with a non-ASCII field name" (structTypeName fs)
   | .time _ => .ok (bn "time.Time")
 
 /-! ## the filter bodies -/
